@@ -201,9 +201,17 @@ def run_property(prop, tier="quick", seed=0, record_expected=False, only=None, j
     known_hits = []
     undecided = list(unknown)
     replay_dir = os.path.join(VERIF, "replays", prop)
+    def known_key(name):
+        # a finding is identified by "clause@class=<failing-input class>"; the part after '|' names the instance
+        base = name.split("|")[0]
+        return base if base in known_open else (name if name in known_open else None)
     for r in refuted + unknown:
-        if r["name"] in known_open:
+        kk = known_key(r["name"])
+        if kk is not None:
+            r["known_key"] = kk
             known_hits.append(r)
+            if r in undecided:
+                undecided.remove(r)
             continue
         # native replay arbitrates (DESIGN 2.7)
         rep = None
@@ -252,9 +260,14 @@ def run_property(prop, tier="quick", seed=0, record_expected=False, only=None, j
     produced = {clause_of(r["name"]) for r in all_results}
     missing = [c for c in expected if c not in produced] if only is None else []
 
+    printed = set()
     for k in known_hits:
-        kf = known_open[k["name"]]
-        lines.append(f"KNOWN-FINDING: property={prop} {k['name']} :: {kf.get('what', '')}")
+        if k["known_key"] in printed:
+            continue
+        printed.add(k["known_key"])
+        kf = known_open[k["known_key"]]
+        n_inst = len([x for x in known_hits if x["known_key"] == k["known_key"]])
+        lines.append(f"KNOWN-FINDING: property={prop} {k['known_key']} ({n_inst} instance(s) this run) :: {kf.get('what', '')}")
     # a listed finding that no longer fails is simply not printed
     for r, rpath, suffix in violations:
         lines.append(f"VIOLATION property={prop} replay={rpath}{suffix}")
@@ -344,7 +357,7 @@ def run_property(prop, tier="quick", seed=0, record_expected=False, only=None, j
                 continue
             c = clause_of(r["name"])
             st = r["status"]
-            if r["name"] in known_open:
+            if known_key(r["name"]) is not None:
                 st = "known-finding"
             prev = cur.get(c)
             order = {"proved": 0, "known-finding": 1, "unknown": 2, "refuted": 3}
